@@ -156,23 +156,84 @@ class AlignShape(Contract):
 
 
 class AlignIndeterminants(Contract):
-    """Assumed for now (sorted-union of names, column scatter): decided by the bounded run-time check only."""
     name = "numpoly.align_indeterminants"
     relpath = "numpoly/align.py"
     func = "align_indeterminants"
-    properties = ("C04",)
+    properties = ("C04", "C17", "C15")
+    assumptions = ("B3: re-indexing the exponent columns by indeterminate name (zero exponent for names a polynomial does not "
+                   "mention) does not change the polynomial denoted",
+                   "A6: names are canonical (prefix + decimal index), so sorting by the numeric suffix is sorting by index",
+                   "CPython set/sorted semantics for the union of the name tuples (axiom sorted_union); arity 1..2 enumerated")
 
     def cases(self):
-        return iter(())
+        for k in (1, 2):
+            def make_env(ex, k=k):
+                ps = sym_polys(ex, k, broadcast=False)
+                ex.inputs = ps
+                ex.pair_hints = [(lambda t, s, p=p: meq(p.row(t), p.row(s), p.D)) for p in ps]
+                return {"polys": tuple(ps)}
+
+            def check(out, k=k):
+                self._check(out, k)
+            yield Case(f"arity={k}", make_env, check)
+
+    def _check(self, out, k):
+        from engine.polymodel import nin, npos, nat
+        from engine.logic import expo, rank
+        ex, ctx = out.ex, out.ctx
+        ex.oblige(f"raises.nothing[{out.exc}:{out.value}]" if out.kind == "raise" else "raises.nothing", z3.BoolVal(out.kind == "return"), "post")
+        if out.kind != "return":
+            return
+        res = out.value
+        ok = isinstance(res, tuple) and len(res) == k and all(isinstance(r, Poly) for r in res)
+        ex.oblige("post.one_result_per_argument_in_order", z3.BoolVal(ok), "post")
+        if not ok:
+            return
+        cnv = out.env.get("common_names")
+        okc = isinstance(cnv, NamesV) and getattr(cnv, "union_of", None) is not None and \
+            len(cnv.union_of) == k and all(z3.eq(t, p.names) for t, p in zip(cnv.union_of, ex.inputs))
+        ex.oblige("post.common_names_are_the_sorted_union_of_all_operand_names", z3.BoolVal(bool(okc)), "post")
+        if not okc:
+            return
+        cn = cnv.term
+        ex.oblige("post.common_names.distinct", names_distinct(ctx, cn), "post")
+        ex.oblige("post.common_names.in_index_order", ctx.forall_range2(0, nlen(cn), lambda e, f: rank(nat(cn, e)) <= rank(nat(cn, f))), "post")
+        for j, (r, p) in enumerate(zip(res, ex.inputs)):
+            ex.oblige(f"post.common_names.contain_operand_names[{j}]", ctx.forall_range(0, p.D, lambda d: nin(cn, nat(p.names, d))), "post")
+            ex.oblige(f"post.shape_kept[{j}]", r.shape == p.shape, "post")
+            ex.oblige(f"post.dtype_kept[{j}]", r.dtype == p.dtype, "post")
+            if r is p:
+                ex.oblige(f"post.unchanged_only_with_the_common_names[{j}]", p.names == cn, "post")
+                continue
+            fa = getattr(r, "from_attrs", None)
+            okf = fa is not None and isinstance(fa["names"], NamesV) and z3.eq(fa["names"].term, cn)
+            ex.oblige(f"post.rebuilt_on_the_common_names[{j}]", z3.BoolVal(bool(okf)), "post")
+            if not okf:
+                continue
+            ex.oblige(f"post.nothing_pruned[{j}]", z3.BoolVal(fa["rc"] is True and fa["rn"] is True), "post",
+                      note="alignment must keep every term and every (still unused) common name, whatever the options")
+            ex.oblige(f"post.own_coefficients[{j}]", z3.BoolVal(getattr(fa["C"], "source", (None,))[0] is p), "post")
+            E = fa["E"]
+            ex.oblige(f"post.one_row_per_term_one_column_per_common_name[{j}]", z3.And(E.n == p.N, E.D == nlen(cn)), "post")
+            ex.oblige(f"post.exponents_moved_to_the_column_of_their_name[{j}]", ctx.forall_range(0, p.N, lambda t: ctx.forall_range(
+                0, p.D, lambda d: expo(E.row(t), npos(cn, nat(p.names, d))) == expo(p.row(t), d))), "post")
+            ex.oblige(f"post.zero_exponent_for_names_not_mentioned[{j}]", ctx.forall_range(0, p.N, lambda t: ctx.forall_range(
+                0, nlen(cn), lambda c: z3.Implies(z3.Not(nin(p.names, nat(cn, c))), expo(E.row(t), c) == 0))), "post")
+            ex.oblige(f"post.fresh[{j}]", z3.BoolVal(r.region.owner == "fresh"), "post")
+            # bridge B3 (premises just established)
+            ctx.assume(ctx.forall_idx(lambda i, r=r, p=p: r.val(i) == p.val(i), p.shape))
+            ex.oblige(f"post.denotes_argument[{j}]", ctx.forall_idx(lambda i, r=r, p=p: r.val(i) == p.val(i), p.shape), "post")
 
     def apply(self, ex, args, kw, node):
+        from engine.polymodel import sorted_union
         polys = list(args)
         if not all(isinstance(p, Poly) for p in polys):
             raise U("align_indeterminants of non-ndpoly operands", node)
         ctx = ex.ctx
-        names = ctx.const("names_common", Names)
-        D = ctx.int("D_common")
-        ctx.assume(z3.And(nlen(names) == D, D >= 1, names_distinct(ctx, names)))
+        cnv = sorted_union(ex, [p.names for p in polys])
+        names = cnv.term
+        D = nlen(names)
+        ctx.assume(D >= 1)
         out = []
         from contracts.construct import keyok
         for k, p in enumerate(polys):
